@@ -120,8 +120,31 @@ def reconnect_scenarios(ctx):
             w.shutdown()
 
 
+def scale_scenarios(ctx):
+    """a message of two dozen fragments whose acknowledgements all fail to come (each wait expires after ACK_TIMEOUT), with
+    other fragmented requests waiting behind it for as long as that takes - and the same with the acknowledgements
+    arriving: the waiting requests get their turn afterwards, nothing is interleaved"""
+    out = []
+    for waiting in ("D", "W", "DW"):
+        for how in ("tick", "ack", "mixed"):
+            s = [("start", 0.0, "H", 60000)] + [("start", 0.0, k, 50000) for k in waiting]
+            for j in range(34):
+                ev = "tick" if how == "tick" or (how == "mixed" and j % 3) else "ack"
+                s.append((ev, 0.0, "H", 0))
+            out.append(s)
+    return out
+
+
 def run(ctx):
     reconnect_scenarios(ctx)
+    traces = []
+    for s in scale_scenarios(ctx):
+        tr = hostdrive.run_schedule(ctx.rng, s, max_live=6)
+        ctx.case(tuple(tr.tokens), nontrivial=True, sample=dict(events=tr.tokens[:8], steps=tr.steps[:8]))
+        ctx.count("scale-scenario")
+        hostdrive.monitor_c11(ctx, tr)
+        traces.append(tr)
+    hostdrive.compare(ctx, traces)
     ctx.rule = ("random quiescent-point schedules of 30 events + drain: request starts of 6 kinds (1, 2, 3 and 4 fragments; "
                 "blocking and non-blocking; <= 3 live), matching / wrong ACKs, responses, timer expiry, cancellation, rare "
                 "close / loss; non-trivial = >= 2 requests and >= 4 event kinds; distinct by event list")
